@@ -1377,6 +1377,20 @@ impl Error {
     /// - The live events adapter when the underlying parser fails.
     #[cold]
     #[inline(never)]
+    /// True for an error reported by the YAML parser itself (a syntax error), as opposed to an
+    /// error of the target type. The streaming iterators end after such an error: what the
+    /// parser delivers afterwards is not a reading of the input any more (some parser errors -
+    /// an undeclared tag handle - do not even stop it).
+    pub(crate) fn is_parser_error(&self) -> bool {
+        matches!(
+            self.without_snippet(),
+            Error::ExternalMessage {
+                source: ExternalMessageSource::SaphyrParser,
+                ..
+            }
+        )
+    }
+
     /// True for the parser's complaint that content follows a document which was not closed by
     /// an end marker (`{a: 1}` followed by `{b: 2}` on the next line): unlike garbage after an
     /// explicit `...`, this is left-over content of the input and must be reported.
